@@ -15,12 +15,35 @@ import common, mpix
 from common import Violation
 
 ENGINE = "mpix"
+
+
+def common_exit2(msg):
+    """harness / driver problem: never a VIOLATION (exit code 2)"""
+    common.log(msg)
+    return SystemExit(2)
 A, D = 16, 64
 CFG = ["smpi/privatization:no", "smpi/async-small-thresh:%d" % A, "smpi/send-is-detached-thresh:%d" % D,
        "debug/stacktrace:none"]
 # (R, N, shards): completed in this order; a bound is completed or not started
-BOUNDS = {"quick": [(2, 2, 1), (2, 3, 16), (2, 4, 64)],
-          "thorough": [(2, 2, 1), (2, 3, 16), (2, 4, 64), (3, 2, 2), (3, 3, 64), (3, 4, 256), (2, 5, 512)]}
+FULL, BASIC, SR = 0x1ff, 0x33, 0x11          # every operation / {Send, Isend, Recv, Irecv} / {Send, Recv}
+# (R, N, shards, operations): completed in this order; a bound is completed or not started
+BOUNDS = {"quick": [(2, 2, 1, FULL), (2, 4, 16, SR), (2, 3, 16, FULL), (2, 4, 32, BASIC), (2, 4, 256, FULL)],
+          "thorough": [(2, 2, 1, FULL), (2, 4, 16, SR), (2, 3, 16, FULL), (2, 4, 32, BASIC), (3, 2, 4, FULL), (3, 3, 128, FULL), (3, 4, 256, BASIC),
+                       (2, 5, 256, BASIC), (2, 4, 256, FULL), (2, 6, 2048, BASIC), (3, 4, 2048, FULL)]}
+
+
+def bound_size(R, N, ops):
+    """number of candidate programs of a bound (what the interpreter walks through)"""
+    import itertools
+    peers, srcs = R - 1, R
+    per_type = [peers * 6] * 4 + [srcs * 6] * 2 + [peers * 6 * srcs * 3] + [srcs * 3] * 2
+    alpha = sum(n for t, n in enumerate(per_type) if ops & (1 << t))
+    dists = sum(1 for k in itertools.product(range(4), repeat=R) if sum(k) == N)
+    return dists * alpha ** N
+
+
+def bname(R, N, ops):
+    return "R=%d N=%d %s" % (R, N, {FULL: "all-ops", BASIC: "send/isend/recv/irecv", SR: "send/recv"}[ops])
 COUNTERS = ["generated", "balanced", "kept", "deadlocking", "leftover", "overflow", "runs", "multi", "states", "transitions",
             "truncs", "anysrc", "mixed", "outcomes", "violations", "skipped"]
 SUMMED = [c for c in COUNTERS if c not in ("generated", "balanced")]
@@ -47,16 +70,24 @@ def binary():
     return mpix.build_smpi("c28p2p", ["c28/p2p.cpp"], cxx=True)
 
 
-def launch(tmp, b, R, N, shard, nshards, extra, timeout=900):
+def launch(tmp, b, R, N, shard, nshards, extra, timeout=900, ops=FULL):
+    timeout = max(20, timeout)
+    extra = list(extra) + ["ops=%d" % ops]
     score = os.path.join(tmp, "score-%d-%d-%d-%d" % (R, N, shard, os.getpid()))
     with open(score, "wb") as f:
         f.write(b"\xff" * 4096)
     rc, out, err = mpix.smpirun(tmp, b, R, args=[R, N, shard, nshards, "score=" + score, "A=%d" % A, "D=%d" % D] + extra,
                                 cfg=CFG, timeout=timeout)
-    raw = open(score, "rb").read(8 * 18)
+    raw = open(score, "rb").read(8 * 32)
     os.unlink(score)
-    vals = struct.unpack("18q", raw)
+    vals = struct.unpack("32q", raw)
     return rc, out, err, vals
+
+
+def od_arg(vals):
+    """the odometer position of the program in progress, as the interpreter's od= argument"""
+    n = vals[19]
+    return "od=%d:%d:%s" % (vals[18], vals[0], ",".join(str(vals[20 + j]) for j in range(n)))
 
 
 def parse(out):
@@ -71,10 +102,10 @@ def parse(out):
             n = {k: int(v) for k, v in (kv.split("=") for kv in line.split()[1:])}
             n["kept"] = n.pop("mine_kept")
         elif line.startswith("P "):
-            m = re.match(r"P index=(\d+) trunc=(\d) prog=(\S+)", line)
-            p = {"index": int(m.group(1)), "trunc": int(m.group(2)), "prog": m.group(3)}
+            m = re.match(r"P index=(\d+) class=(\d+) prog=(\S+)", line)
+            p = {"index": int(m.group(1)), "class": int(m.group(2)), "prog": m.group(3)}
         elif line.startswith("HARNESS-ERROR"):
-            raise SystemExit("C28: " + line + " (exit 2)")
+            raise common_exit2("C28: " + line + " (exit 2)")
     return vs, n, p
 
 
@@ -89,61 +120,72 @@ def death_kind(rc, err):
     return "crash:exit%s" % rc
 
 
-def alone(tmp, b, R, N, index, variant):
-    rc, out, err, vals = launch(tmp, b, R, N, 0, 1, ["only=%d" % index, "onlyvar=%d" % variant], timeout=120)
+def alone(tmp, b, R, N, prog, variant, od=None, index=None, ops=FULL):
+    """Runs one program with one size assignment in a simulation of its own. prog: its text, or None with od= (the
+    odometer position recorded by a simulation that died). Returns the violation record, or None if all is fine."""
+    if prog == "-":        # no program at all: does the frame (init, barrier, finalize) survive?
+        rc, out, err, vals = launch(tmp, b, R, 1, 0, 1, ["skipclass=7", "ops=0"], timeout=120)
+        return None if vals[0] == -2 else {"kind": death_kind(rc, err) + ":between-programs", "variant": 0, "prog": "-", "obs": ""}
+    extra = ["prog=" + prog] if prog else [od, "only=%d" % index]
+    rc, out, err, vals = launch(tmp, b, R, N, 0, 1, extra + ["onlyvar=%d" % variant], timeout=120, ops=ops)
     vs, n, p = parse(out)
+    if p is None:
+        raise common_exit2("C28: cannot re-run a program alone: rc=%s %s %s (exit 2)" % (rc, out[-300:], err[-300:]))
     if vals[0] != -2:      # died
-        return {"kind": death_kind(rc, err), "index": index, "variant": variant, "prog": p["prog"] if p else "?", "obs": "",
-                "trunc": p["trunc"] if p else 0}
+        return {"kind": death_kind(rc, err), "variant": variant, "prog": p["prog"], "obs": "", "class": p["class"]}
     for v in vs:
-        if v["index"] == index and v["variant"] == variant:
-            v["trunc"] = p["trunc"] if p else 0
+        if v["variant"] == variant:
+            v["class"] = p["class"]
             return v
     return None
 
 
 def run_shard(task):
-    tmp, b, R, N, shard, nshards, end = task
+    tmp, b, R, N, shard, nshards, end, ops = task
     if time.time() > end:
         return None
     tot = dict.fromkeys(COUNTERS, 0)
     viol, deaths, sims = [], [], 0
-    after, skipclass, trunc_deaths = None, 0, 0
+    resume, skipclass, class_deaths = [], 0, {1: 0, 2: 0, 4: 0}
     while True:
-        extra = ["skipclass=%d" % skipclass] + (["after=%d:%d" % after] if after else [])
-        rc, out, err, vals = launch(tmp, b, R, N, shard, nshards, extra)
+        rc, out, err, vals = launch(tmp, b, R, N, shard, nshards, ["skipclass=%d" % skipclass] + resume, timeout=end + 15 - time.time(), ops=ops)
         sims += 1
+        if rc == 124 or time.time() > end + 30:
+            return None                    # out of time: the bound is not completed
         vs, n, _ = parse(out)
         viol += vs
         if vals[0] == -2 and n is not None:
-            for c in SUMMED:
+            for c in COUNTERS:
                 tot[c] += n[c]
-            tot["generated"], tot["balanced"] = n["generated"], n["balanced"]
             break
         if vals[0] < 0:
-            raise SystemExit("C28: simulation (R=%d N=%d shard %d) died outside any program: rc=%s %s (exit 2)" % (R, N, shard, rc, err[-400:]))
+            # died while no program was running (MPI_Init, the separating barrier, MPI_Finalize): point-to-point itself is
+            # broken; reported as such, nothing else of this bound can be said
+            return {"R": R, "N": N, "shard": shard, "tot": tot, "sims": sims, "skipclass": skipclass, "viol": viol + deaths,
+                    "fatal": {"kind": death_kind(rc, err) + ":between-programs", "variant": 0, "prog": "-", "obs": "", "index": -1}}
         for i, c in enumerate(COUNTERS):
-            if c in SUMMED:
-                tot[c] += vals[2 + i]
+            tot[c] += vals[2 + i]
         index, variant = vals[0], vals[1]
-        d = alone(tmp, b, R, N, index, variant)      # what is it, and does it die alone too?
+        d = alone(tmp, b, R, N, None, variant, od_arg(vals), index, ops)      # what is it, and does it die alone too?
         sims += 1
         if d is None:
-            raise SystemExit("C28: program %d/%d (R=%d N=%d) killed its simulation but runs fine alone (exit 2)" % (index, variant, R, N))
+            raise common_exit2("C28: program %d/%d (R=%d N=%d) killed its simulation but runs fine alone (exit 2)" % (index, variant, R, N))
+        d["index"] = index
         deaths.append(d)
-        if d.get("trunc"):
-            trunc_deaths += 1
-            if trunc_deaths >= CUT_AFTER:
-                skipclass |= 1
-        after = (index, variant)
-        if len(deaths) > 400:
-            raise SystemExit("C28: more than 400 dead simulations in one shard (R=%d N=%d) (exit 2)" % (R, N))
+        for bit in class_deaths:
+            if d["class"] & bit:
+                class_deaths[bit] += 1
+                if class_deaths[bit] >= CUT_AFTER:
+                    skipclass |= bit
+        resume = [od_arg(vals), "after=%d:%d" % (index, variant)]
+        if len(deaths) > 300:
+            raise common_exit2("C28: more than 300 dead simulations in one shard (R=%d N=%d) (exit 2)" % (R, N))
     return {"R": R, "N": N, "shard": shard, "tot": tot, "viol": viol + deaths, "sims": sims, "skipclass": skipclass}
 
 
 def _confirm(task):
     tmp, b, R, N, v = task
-    got = [alone(tmp, b, R, N, v["index"], v["variant"]) for _ in range(2)]
+    got = [alone(tmp, b, R, N, v["prog"], v["variant"]) for _ in range(2)]
     ok = all(g is not None and g["kind"] == v["kind"] and g["obs"] == v["obs"] for g in got)
     return ok, got
 
@@ -163,32 +205,39 @@ def _run(ctx, b, tmp):
     kinds, done, sims, cut = {}, [], 0, 0
     end = ctx.deadline.end - (10 if ctx.quick else 60)
     with cf.ProcessPoolExecutor(max_workers=common.NCPU) as ex:
-        for (R, N, ns) in BOUNDS[ctx.tier]:
-            if time.time() > end - (0 if not done else 20):
+        last = None
+        for bi, (R, N, ns, ops) in enumerate(BOUNDS[ctx.tier]):
+            left = end - time.time()
+            # a bound is started only if, at the pace of the previous one, it fits in the time left
+            if left < 5 or (last is not None and left < last[0] * bound_size(R, N, ops) / max(last[1], 2e6)):   # (small bounds are all overhead)
                 break
+            t0 = time.time()
             order = list(range(ns))
             if ctx.seed:
                 import random
                 random.Random(ctx.seed).shuffle(order)
-            res = list(ex.map(run_shard, [(tmp, b, R, N, s, ns, end) for s in order]))
+            res = list(ex.map(run_shard, [(tmp, b, R, N, s, ns, end, ops) for s in order]))
+            fatal = [r["fatal"] for r in res if r is not None and "fatal" in r]
+            if fatal:
+                k = kinds.setdefault(fatal[0]["kind"], {"n": len(fatal), "first": ((bi, "-", 0, R, N), fatal[0])})
+                break
             if any(r is None for r in res):
                 break                                   # bound not completed: nothing of it is reported
             for r in res:
                 sims += r["sims"]
-                for c in SUMMED:
+                for c in COUNTERS:
                     tot[c] += r["tot"][c]
                 for v in r["viol"]:
                     k = kinds.setdefault(v["kind"], {"n": 0, "first": None})
                     k["n"] += 1
-                    rank = (R, N, v["index"], v["variant"])
+                    rank = (bi, v["prog"], v["variant"], R, N)     # first bound (same order in both tiers), then program text
                     if k["first"] is None or rank < k["first"][0]:
                         k["first"] = (rank, v)
-            tot["generated"] += res[0]["tot"]["generated"]
-            tot["balanced"] += res[0]["tot"]["balanced"]
             cut += sum(1 for r in res if r["skipclass"])
-            done.append("R=%d N=%d" % (R, N))
+            done.append(bname(R, N, ops))
+            last = (time.time() - t0, bound_size(R, N, ops))
         items = [(k, v["first"]) for k, v in sorted(kinds.items())]
-        conf = list(ex.map(_confirm, [(tmp, b, f[0][0], f[0][1], f[1]) for _, f in items]))
+        conf = list(ex.map(_confirm, [(tmp, b, f[0][3], f[0][4], f[1]) for _, f in items]))
     violations = []
     for (kind, (rank, v)), (ok, got) in zip(items, conf):
         if not ok:
@@ -196,13 +245,14 @@ def _run(ctx, b, tmp):
             raise SystemExit(2)
         key = "%s prog=%s sizes=v%d" % (kind, v["prog"], v["variant"])
         what = "%s; first of %d program runs of this kind (R=%d, %d operations, thresholds %d/%d); observed %s" % (
-            DESCR.get(kind, kind), kinds[kind]["n"], rank[0], rank[1], A, D, v["obs"] or "-")
-        violations.append(Violation(key, what, {"R": rank[0], "N": rank[1], "index": v["index"], "variant": v["variant"],
+            DESCR.get(kind, kind), kinds[kind]["n"], rank[3], rank[4], A, D, v["obs"] or "-")
+        violations.append(Violation(key, what, {"R": rank[3], "N": rank[4], "variant": v["variant"],
                                                 "prog": v["prog"], "kind": kind, "obs": v["obs"]}))
-    if not done or tot["multi"] < 2 or tot["kept"] < 2:
-        common.log("C28: vacuous run (bounds done: %s, programs with >= 2 legal outcomes: %d)" % (done, tot["multi"]))
+    nontrivial = tot["multi"] + tot["mixed"]
+    if not violations and (not done or nontrivial < 2 or tot["kept"] < 2):
+        common.log("C28: vacuous run (bounds done: %s, programs with >= 2 legal outcomes or mixed sizes from one sender: %d)" % (done, nontrivial))
         raise SystemExit(2)
-    all_bounds = ["R=%d N=%d" % (R, N) for R, N, _ in BOUNDS[ctx.tier]]
+    all_bounds = [bname(R, N, ops) for R, N, _, ops in BOUNDS[ctx.tier]]
     coverage = {
         "states": tot["states"], "transitions": tot["transitions"], "traces_validated_against_impl": tot["runs"],
         "samples": ["S(1,0,M),S(1,1,S)|R(0,*,b),R(0,*,b)", "X(1,0,S;*,*)|X(0,1,L;0,1)", "I(1,0,L),P(1,*)|B(0,1,S),J(*,0,b)"],
@@ -211,12 +261,14 @@ def _run(ctx, b, tmp):
         "programs_enumerated": tot["generated"], "programs_balanced": tot["balanced"],
         "programs_run": tot["kept"], "programs_discarded_model_deadlock": tot["deadlocking"],
         "programs_discarded_state_limit": tot["overflow"],
-        "programs_with_two_or_more_legal_outcomes": tot["multi"], "legal_outcomes": tot["outcomes"],
+        "programs_with_two_or_more_legal_outcomes": tot["multi"], "distinct_nontrivial": nontrivial, "evaluations": tot["runs"], "legal_outcomes": tot["outcomes"],
         "programs_with_any_source": tot["anysrc"], "programs_with_mixed_sizes_from_one_sender": tot["mixed"],
         "truncating_receives_checked": tot["truncs"], "simulations": sims,
-        "shards_cut_truncation_class": cut, "programs_skipped_in_cut_class": tot["skipped"],
-        "cut_rule": "after %d simulations of a shard died on programs where a small-capacity receive may get a longer message, "
-                    "the remaining programs of that class are skipped in that shard (counted above)" % CUT_AFTER,
+        "shards_with_a_cut_class": cut, "programs_skipped_in_cut_classes": tot["skipped"],
+        "cut_rule": "program classes: (1) a small-capacity receive may get a longer message, (2) a sender sends a message of class M/L "
+                    "and later one of class S to the same rank, (4) a rank posts receives of both capacities. After %d simulations of a shard died on programs of a class, the "
+                    "remaining programs of that class are skipped in that shard (counted above); violations that do not kill the "
+                    "simulation never cut anything" % CUT_AFTER,
         "implementation_runs_failing": sum(k["n"] for k in kinds.values()),
         "thresholds": {"smpi/async-small-thresh": A, "smpi/send-is-detached-thresh": D,
                        "size_variants": [[1, A, D], [A - 1, D - 1, D + 1], [1, A + 1, D]]},
@@ -234,10 +286,10 @@ def replay(ctx, case):
     tmp = common.tmpdir("c28r")
     try:
         c = case["case"]
-        got = alone(tmp, b, c["R"], c["N"], c["index"], c["variant"])
+        got = alone(tmp, b, c["R"], c["N"], c["prog"], c["variant"])
         print("program (R=%d): %s   size assignment v%d, thresholds %d/%d" % (c["R"], c["prog"], c["variant"], A, D))
-        print("equivalent: smpirun -np %d --cfg=smpi/async-small-thresh:%d --cfg=smpi/send-is-detached-thresh:%d ./c28p2p %d %d 0 1 only=%d onlyvar=%d" % (
-            c["R"], A, D, c["R"], c["N"], c["index"], c["variant"]))
+        print("equivalent: smpirun -np %d --cfg=smpi/async-small-thresh:%d --cfg=smpi/send-is-detached-thresh:%d ./c28p2p %d %d 0 1 'prog=%s' onlyvar=%d" % (
+            c["R"], A, D, c["R"], c["N"], c["prog"], c["variant"]))
         if got is None:
             print("observed: an outcome the MPI matching model allows")
             return 0
